@@ -241,6 +241,19 @@ class C19(Prop):
             bad = unchanged(reg)
             if bad:
                 return Outcome.fail('user_array_modified:solve:' + bad, 'user array %s was modified by formulation/solve' % bad, labels)
+            if not case['readonly']:
+                # the program is a function of what was declared: overwriting the user's arrays after the declarations (a reused
+                # work buffer) must not move the program
+                with quiet():
+                    m2, solver2, reg2 = data_model(case)
+                    for name, a, cp in reg2:
+                        if not sp.issparse(a) and a.flags.writeable:
+                            a[...] = 7
+                    f1, f2 = snap(m.do_math()), snap(m2.do_math())
+                msg = diff(f1, f2)
+                if msg:
+                    return Outcome.fail('program_follows_user_array', 'overwriting the user arrays after the declarations changed the program: ' + msg, labels)
+                labels.append('overwrite_after_declaration')
             return Outcome.ok(True, labels)
         st_np = np.random.get_state()
         st_py = random.getstate()
